@@ -335,6 +335,7 @@ fn conv_level(t: &mut Tape<'_>, o: &ConvOpts, depth: usize, name: &str) -> CmdSp
         a.plural_builders = t.bool();
         a.setter_history = t.chance(1, 4);
         a.decoy_history = t.chance(1, 5);
+        a.static_id = t.bool();
         if a.action == Action::SetTrue && !a.is_positional() && a.num_args.is_none() && t.chance(1, 4) {
             // a flag declared through `num_args(0)` and no action
             a.num_args = Some((0, 0));
